@@ -69,7 +69,7 @@ impl Property for C13 {
         "C13"
     }
     fn rule(&self) -> &'static str {
-        "case = instance with <=3 integer/binary variables in small integer boxes (<=7 values each, negative and sign-crossing) x one inequality of degree<=2 whose coefficients are rationals p/q, q in {1,2,3,4,5,6,8,10,12}, rendered to f64, other constraints present x limit around the needed slack range | one rejection condition (unknown id, equality constraint, continuous variable, limit too small, constraint without function, undefined variable, unbounded integer variable with a limit up to u64::MAX); both conversions; \
+        "case = instance with <=3 integer/binary variables in small integer boxes (<=7 values each, negative and sign-crossing; binaries also fixed by bound; optionally the hint of a relaxed one-hot constraint) x one inequality of degree<=2 whose coefficients are rationals p/q, q in {1,2,3,4,5,6,8,10,12}, rendered to f64, other constraints present x limit around the needed slack range | one rejection condition (unknown id, equality constraint, continuous variable, limit too small, constraint without function, undefined variable, unbounded integer variable with a limit up to u64::MAX); both conversions; \
          oracle = brute force over EVERY lattice point of the box and EVERY integer slack value in the new variable's bounds, in exact rational arithmetic; non-trivial = converted, >=2 variables, both feasible and infeasible lattice points; distinct = sha256(instance, call)"
     }
     fn required_labels(&self) -> Vec<String> {
